@@ -104,3 +104,35 @@ func VerifHarness_C08_O1less() {
 	verifCrashFree("frame-event-order-hostile-signatures", func() { a.Less(0, 1) })
 	verifReach("end")
 }
+
+// C08/O4 — a hostile block signature gossiped by a validator must not make the
+// node unable to process subsequent valid messages: with a malformed signature
+// string (symbolic, length 0..4) from member 1 pending next to a valid signature
+// from member 2, signature processing still records the valid one and does not
+// keep failing.  Both iteration orders of the pool are explored.
+func VerifHarness_C08_O4sigpool() {
+	vn := verifNewNet(3, 100)
+	h := vn.h
+	b := NewBlock(0, 1, []byte("fh"), vn.set.Peers, [][]byte{[]byte("tx")}, nil, 5)
+	if err := h.Store.SetBlock(b); err != nil {
+		panic(err)
+	}
+	hostile := verifNondetString("hostileSig", 4)
+	d, _ := b.Body.Hash()
+	good := verifSignature(vn.keys[2], d, true)
+	h.PendingSignatures.Add(BlockSignature{Validator: vn.pubs[1], Index: 0, Signature: hostile})
+	h.PendingSignatures.Add(BlockSignature{Validator: vn.pubs[2], Index: 0, Signature: good})
+	verifMapOrder("order", 2)
+	var err1, err2 error
+	if verifCrashFree("process-sig-pool-hostile-signature", func() {
+		err1 = h.ProcessSigPool()
+		err2 = h.ProcessSigPool()
+	}) {
+		return
+	}
+	_ = err1
+	sb, _ := h.Store.GetBlock(0)
+	verifAssert("valid-signature-beside-a-hostile-one-is-recorded", sb.Signatures[vn.hexes[2]] == good)
+	verifAssert("signature-processing-does-not-keep-failing", err2 == nil)
+	verifReach("end")
+}
